@@ -183,9 +183,51 @@ def check_invalid(case, ctx):
     ctx.case(case, bool(allowed), sample={'call': what, 'outcome': got})
 
 
+AFFIX_BAD = ['none', 'int', 'float', 'bool', 'bytes', 'tuple', 'list', 'pregex', 'pregex_raw', 'token', 'class']
+
+
+def affix_value(v):
+    if v[0] == 's':
+        return v[1]
+    import pregex.core.classes as cl
+    import pregex.core.tokens as tk
+    from pregex.core.pre import Pregex
+    return {'none': None, 'int': 1, 'float': 1.5, 'bool': True, 'bytes': b'a', 'tuple': ('a',), 'list': ['a'], 'pregex': Pregex('a'),
+            'pregex_raw': Pregex('.', escape=False), 'token': tk.Space(), 'class': cl.AnyDigit()}[v[1]]
+
+
+def check_invalid_affix(case, ctx):
+    """':raises InvalidArgumentTypeException: At least one of the provided infixes is not a string' - whatever its position."""
+    import pregex.meta.essentials as es
+    items = [affix_value(v) for v in case['items']]
+    arg = items if case['as_list'] else items[0]
+    what = f"{case['cls']}({arg!r})"
+    try:
+        r = getattr(es, case['cls'])(arg)
+        got = f'a pattern {str(r)[:60]!r}'
+    except Exception as ex:  # noqa: BLE001
+        if type(ex).__name__ == 'CaseTimeout':
+            raise
+        got = type(ex).__name__
+    if got != 'InvalidArgumentTypeException':
+        violation('invalid_affix', case, f'{what} -> {got}; documented InvalidArgumentTypeException (an affix that is not a string)', ctx)
+    ctx.case(case, True, sample={'call': what, 'outcome': got})
+
+
+def invalid_affix_cases():
+    for cls in ('WordContains', 'WordStartsWith', 'WordEndsWith'):
+        for bad in AFFIX_BAD:
+            b = ['bad', bad]
+            if bad != 'list':        # a bare list is the documented list form
+                yield {'mode': 'invalid_affix', 'cls': cls, 'items': [b], 'as_list': False}
+            for items in ([b], [b, ['s', 'a']], [['s', 'a'], b], [['s', 'a'], ['s', 'bc'], b], [['s', 'a'], b, ['s', 'bc']], [['s', 'a']] * 20 + [b]):
+                yield {'mode': 'invalid_affix', 'cls': cls, 'items': items, 'as_list': True}
+
+
 def check_case(case, ctx):
     ctx.count(f"mode:{case['mode']}")
-    {'numeral': check_numeral, 'word': check_word, 'affix': check_affix, 'invalid': check_invalid}[case['mode']](case, ctx)
+    {'numeral': check_numeral, 'word': check_word, 'affix': check_affix, 'invalid': check_invalid,
+     'invalid_affix': check_invalid_affix}[case['mode']](case, ctx)
 
 
 WORDCH = list('abcxyzABZ019_') + list('éßΩж')
@@ -272,5 +314,7 @@ def run_shard(spec, ctx):
     if spec['mode'] == 'grid':
         from pbt.common import run_enumeration
         run_enumeration(ctx, numeral_grid(spec['part'], spec['parts']), check_case, 'Numeral: all bases 2-16 x all (n_min, n_max) in 0..5/None')
+        if spec['part'] == 0:
+            run_enumeration(ctx, invalid_affix_cases(), check_case, 'affix classes x 11 non-str kinds x 7 positions (bare, first, middle, last, after 20 valid ones)')
     else:
         run_hypothesis(ctx, gen_case(), check_case, spec['examples'])
